@@ -11,8 +11,11 @@
 (c) border extraction is a pure query: on a sub-family of (a), every ordered pair (x, y) of the four entry points
     (default start, given start, all cycles, polyline) is played as the history x, y, x, y on ONE mesh object; every
     answer is judged like in (a) and the border / interior containers and element arrays of the mesh must still
-    describe the face list after every call. Every border vertex is also given as starting point in every integer
-    form (numpy signed / unsigned scalars of several widths, a subclass of int).
+    describe the face list after every call, and its attribute blackboard (names of the attributes of every container, values
+    of those that were there before the call) must be what it was before the call, apart from the attributes that the mesh's own
+    border accessors create (computed on a fresh mesh). All of this once with config.display_duplicate_attribute_warning
+    off and once with it on (create_attribute then hands back an existing attribute of the same name). Every border vertex
+    is also given as starting point in every integer form (numpy signed / unsigned scalars of several widths, a subclass of int).
 (d) a detector describes the surface it is run on: ONE FeatureEdgeDetector object run on surface A and then on
     surface B for every ordered pair of small families (same face list with other fold angles, and surfaces with other
     numbers of vertices / edges / faces), B being another mesh object or the same object after its vertices moved.
@@ -31,7 +34,7 @@ RULE = ("border: one case = (labelled manifold face list, sort_neighborhoods); e
         "a border. features: one case = (mesh with given fold angles, hard-edge declaration, option vector, "
         "previous-run state); non-trivial = the mesh has an interior edge or a border. histories: one case = (mesh, "
         "sort_neighborhoods, ordered pair of border entry points) played twice on one mesh object, and (mesh, border vertex, "
-        "integer form of the starting point). detector re-use: one case = (ordered pair of surfaces that differ in the band of "
+        "integer form of the starting point), both also with config.display_duplicate_attribute_warning on. detector re-use: one case = (ordered pair of surfaces that differ in the band of "
         "an edge or in their face list, other mesh object | same object deformed, declaration, options)")
 ASSUMPTIONS = [
     "inputs are oriented manifold polygon complexes (checked by mc.families.is_oriented_manifold) with planar, "
@@ -47,6 +50,11 @@ ASSUMPTIONS = [
     "history / argument-form / detector-re-use clauses report only answers that differ from the answer of the same call on a "
     "fresh mesh with a python int / of a fresh detector on a fresh mesh (those answers are judged by the base clauses); "
     "histories are bounded to x,y,x,y over the four border entry points with one given starting point (last vertex of the last loop)",
+    "attribute blackboard clause: the attributes created by the surface's own lazily cached border accessors (boundary_vertices, "
+    "interior_vertices, boundary_edges, interior_edges, is_vertex_on_border; measured on a fresh mesh of the tree under test: "
+    "vertices.border) may appear during a border query; any other new, removed or modified attribute of the mesh is reported",
+    "config.display_duplicate_attribute_warning is switched by the runner around whole history tasks (mesh construction included) "
+    "and restored by it",
     "detector re-use is exercised on meshes that carry no persistent 'normals' face attribute (with one, the detector "
     "documentedly reads it); vertices are moved through mesh.vertices[i] = Vec",
 ]
@@ -56,12 +64,12 @@ BOUNDS = {
              "features: hinge x 91 angles (20 per side of each threshold) x sign x 10 declarations x 12 options, "
              "accordions with 1-2 folds, cones/bipyramids, SURF(<=5) on the moment curve, ZOO, non-convex flat quads; "
              "histories + 5 integer forms of every border start: SURF triangles n<=4, tri+quad n=4, pentagons, SURF(6) classes, holey 3x3, grids, swiss, ZOO "
-             "(209 meshes x 2 sorts x 16 histories of 4 calls); detector re-use: all ordered pairs of 5 hinges, 4 accordions, 6 cones/bipyramids, "
+             "(209 meshes x 2 sorts x 16 histories of 4 calls x display_duplicate_attribute_warning off/on, attribute blackboard compared around every call); detector re-use: all ordered pairs of 5 hinges, 4 accordions, 6 cones/bipyramids, "
              "7 surfaces of different sizes x 2-3 declarations x 2-3 options (1008 cases)",
     "thorough": "border: + SURF(6) all labelled (12934), face-listing deviations <=1 on triangles n=5, tri+quad n=5 <=5 faces (2612), holey 3x4 tri all (743), 4x5 quad all, "
                 "4x4 tri <=5 removed, 4x4 mixed <=4 removed, 5x5 quad <=3 removed, 3x3 mixed all; features: + hinge shapes/orientations x 40 per side, accordions with 2 folds (all 72 angle "
                 "pairs x 4 modes x 2 widths) and 3 folds (54 angle triples x 2 sign patterns x 2 modes), all 12 options, all cones/bipyramids, SURF(6) all labelled, previous-run states on every family; "
-                "histories / integer forms: + SURF triangles n=5, face-listing deviations n=4, holey 4x4 quad, 3x4 tri; detector re-use: 11 hinges, 9 accordions x 3 modes, 9 surfaces of different sizes, more options",
+                "histories / integer forms (x duplicate-attribute switch off/on): + SURF triangles n=5, face-listing deviations n=4, holey 4x4 quad, 3x4 tri; detector re-use: 11 hinges, 9 accordions x 3 modes, 9 surfaces of different sizes, more options",
 }
 
 OPTS_ALL = [[ob, fc, co] for ob in (False, True) for fc in (True, False) for co in (4, 2, 6)]
@@ -625,12 +633,59 @@ def _snapshot(m):
             [tuple(int(x) for x in f) for f in m.faces])
 
 
+_CONTAINERS = ("vertices", "edges", "faces", "face_corners", "cells", "cell_corners", "cell_faces")
+
+
+def _blackboard(m):
+    """{'<container>.<attribute name>': values over the whole container} for every attribute of every container of m."""
+    out = {}
+    for cname in _CONTAINERS:
+        c = getattr(m, cname, None)
+        if c is None or not hasattr(c, "attributes"):
+            continue
+        for an in sorted(c.attributes):
+            a = c.get_attribute(an)
+            out[cname + "." + str(an)] = repr([a[i] for i in range(len(c))])
+    return out
+
+
+def _own_border_attributes(build):
+    """Names of the attributes that the mesh's OWN border accessors (boundary_vertices / interior_vertices / boundary_edges /
+    interior_edges / is_vertex_on_border - the documented lazily cached containers of SurfaceMesh) put on a fresh mesh:
+    computed on the tree under test, a border query that reads these accessors may leave exactly those behind."""
+    m = build()
+    before = set(_blackboard(m))
+    _ = (list(m.boundary_vertices), list(m.interior_vertices), list(m.boundary_edges), list(m.interior_edges))
+    if len(m.vertices):
+        m.is_vertex_on_border(0)
+    return sorted(set(_blackboard(m)) - before)
+
+
+def _blackboard_verdict(before, after, allowed):
+    """None | (what, container, detail): the attribute blackboard after a border query against the one before it."""
+    added = sorted(k for k in after if k not in before and k not in allowed)
+    if added:
+        return "attribute_added", added[0].split(".")[0], {"attributes_added": added}
+    removed = sorted(k for k in before if k not in after)
+    if removed:
+        return "attribute_removed", removed[0].split(".")[0], {"attributes_removed": removed}
+    changed = sorted(k for k in before if before[k] != after[k])
+    if changed:
+        return "attribute_values", changed[0].split(".")[0], {"attributes_changed": changed, "before": before[changed[0]][:300],
+                                                             "after": after[changed[0]][:300]}
+    return None
+
+
 def _check_border_history(M, name, n, pts, faces, sort, rep: Report):
     """Clause 'border extraction is a pure query': every ordered pair (a, b) of the four entry points, played as the
     history a, b, a, b on ONE mesh object; every answer must be what the statement says about the face list, and
     the border / interior containers of the mesh must still describe it after every call. Only what differs from the
     answer of the same entry point on a fresh mesh is reported here (that answer is the subject of the base clauses).
-    Clause 'all starting points' x argument form: every border vertex given as every kind of integer object."""
+    Clause 'the attribute blackboard of the mesh is the same after a border query as before': names of the attributes of
+    every container (apart from those that the mesh's own border accessors create on a fresh mesh, computed) and the values of
+    the attributes that were there before the call.
+    Clause 'all starting points' x argument form: every border vertex given as every kind of integer object.
+    The runner plays the whole task once more with config.display_duplicate_attribute_warning = True (dupflag_variant)."""
     from mouette.processing import extract_border_cycle, extract_border_cycle_all, extract_boundary_of_surface
     P = pts if pts is not None else F.moment_curve(n)
     build = lambda: F.build_surface(P, faces)
@@ -647,6 +702,11 @@ def _check_border_history(M, name, n, pts, faces, sort, rep: Report):
         rep.count("history:premise_border_containers_of_a_fresh_mesh"); return     # C01/C02's subject
     start = ref.loops[-1][-1] if ref.loops else None
     events = [e for e in EVENTS if e != "cycle_start" or start is not None]
+    o = call(_own_border_attributes, build)
+    if not o.ok:
+        rep.count("history:premise_border_containers_of_a_fresh_mesh"); return
+    allowed = o.value
+    rep.outcome("history:attributes_of_the_mesh_own_border_accessors", ",".join(allowed))
 
     def play(ev, mesh):
         if ev == "cycle_default":
@@ -669,6 +729,7 @@ def _check_border_history(M, name, n, pts, faces, sort, rep: Report):
             prev = "nothing"
             hist = []
             for k, ev in enumerate((a, b, a, b)):
+                bb0 = call(_blackboard, mesh)
                 v = play(ev, mesh)
                 hist.append(ev)
                 rep.transitions += 1; rep.evaluations += 1
@@ -691,6 +752,22 @@ def _check_border_history(M, name, n, pts, faces, sort, rep: Report):
                                    "boundary_vertices_now": call(lambda: [int(v) for v in mesh.boundary_vertices]).value,
                                    "want_boundary_vertices": ref.bverts})
                     break
+                bb1 = call(_blackboard, mesh)
+                rep.evaluations += 1
+                if bb0.ok:        # (a blackboard that cannot be read before the call is not the call's doing)
+                    w = _blackboard_verdict(bb0.value, bb1.value, allowed) if bb1.ok else \
+                        ("reading_raises:" + bb1.exc, "any", {"msg": bb1.msg})
+                    rep.outcome("history:blackboard", w[0] if w else "same")
+                    if w:
+                        rep.violation("C15.border.history.attributes_unchanged", _CALLEE[ev], "side_effect:" + w[0],
+                                      f"container={w[1]}:" + ("first_call_of_the_entry_point" if ev not in hist[:-1]
+                                                              else "repeated_call_of_the_entry_point"),
+                                      {**base, "history_on_one_mesh_object": hist, "start": start,
+                                       "attributes_before": sorted(bb0.value), "attributes_after": sorted(bb1.value) if bb1.ok else None,
+                                       "attributes_of_the_mesh_own_border_accessors": allowed, **w[2]})
+                        # (the history goes on: the answers of the later calls are judged on their own)
+                    if bb0.value:
+                        rep.flag("history:blackboard_not_empty_before_the_call")
                 prev = ev
             rep.traces += 1; rep.states += 1
             rep.case(("hist", n, tuple(map(tuple, faces)), sort, a, b))
@@ -1119,6 +1196,15 @@ def finish(tier, rep: Report):
     for k in ("history:premise_border_containers_of_a_fresh_mesh", "reuse:declaration_raised", "reuse:first_run_raised"):
         if rep.counters.get(k):
             fails.append(f"{k}: {rep.counters[k]} inputs of the history / re-use clauses were skipped")
+    # the histories were also played with the duplicate-attribute switch on (runner: dupflag_variant), and the
+    # attribute blackboard was compared around every call, at least once on a blackboard that was not empty
+    if rep.counters.get("duplicate_attribute_flag:history_meshes", 0) < floors["history_meshes"]:
+        fails.append(f"histories with display_duplicate_attribute_warning=True: "
+                     f"{rep.counters.get('duplicate_attribute_flag:history_meshes', 0)} < pinned floor {floors['history_meshes']}")
+    if "history:blackboard" not in rep.outcomes:
+        fails.append("the attribute blackboard was never compared around a border query")
+    if "history:blackboard_not_empty_before_the_call" not in rep.flags:
+        fails.append("coverage flag missing: history:blackboard_not_empty_before_the_call")
     for ev in EVENTS:
         if "history:" + ev not in rep.outcomes:
             fails.append("entry point never played in a history: " + ev)
@@ -1131,7 +1217,7 @@ def finish(tier, rep: Report):
 def dupflag_variant(task, tier):
     """Tasks that are also run with config.display_duplicate_attribute_warning = True (the runner appends
     ':duplicate_attribute_flag' to the input class of anything found there)."""
-    return bool(task.get("kind") == "feat" and task.get("family") == "surf")
+    return bool((task.get("kind") == "feat" and task.get("family") == "surf") or task.get("kind") == "border_hist")
 
 
 def warm_variant(task, tier):
